@@ -78,6 +78,13 @@ func init() {
 		Assumptions: []string{"BadgerDB is opened with its default SyncWrites=true; loss of acknowledged but unsynced data and kernel-level disk errors (EIO, ENOSPC) are not simulated (no VFS seam in BadgerDB v1.6.2)", "a copy of the directory while all goroutines are blocked equals the image a process kill leaves; power loss is modelled by zeroing a suffix of the value log beyond the last acknowledged mutation"},
 	})
 	addCheck(&CheckSpec{
+		Property: "C15", Level: "exploration", OwnsPanics: true,
+		Rule:   "queryevent scenario: call handlers start 1-4 query events per run on resources in shared groups; the peer sends query requests (valid, missing query, malformed JSON) at tape-chosen instants relative to expiry: well inside the window, buffered in the subscription channel when the timer fires, after the drain was requested, more than the channel holds at once; callbacks reply with model/collection/events/errors, panic with each value kind or do nothing; the query subscription fails for some; expiry by advancing the simulated clock (50 ms, 1 s, 3 s durations).",
+		Oracle: "each query request delivered while the event was active gets exactly one response of the predicted kind (error for missing query or malformed payload); callbacks run under the C01 occupancy counter of the resource's group; after expiry the callback was invoked with nil exactly once, not before the configured duration, and no invocation with a request starts after it; a failed subscription yields exactly one nil call and no query event; after everything settled and the service was shut down no goroutine of the process is inside startQueryListener.",
+		Scen:   []ScenBudget{{"queryevent", 4000, 250000}},
+		Assumptions: []string{"tier A cannot observe Subscription.Drain on the zero-value subscription it hands out; the server-side effect of Drain is emulated at the instrumented point directly after the Drain call"},
+	})
+	addCheck(&CheckSpec{
 		Property: "C07", Level: "exploration",
 		Rule:   "transport monitor on every Publish of the requests and core scenarios: results/models/collections/event payloads that are nil, nested, need escaping or cannot be marshalled; every meta combination on HTTP and non-HTTP requests; marshal failures and publish errors as injected faults.",
 		Oracle: "independent validator written from the RES protocol text: subject is a publishable NATS subject of a documented form (reply inbox handed out by the peer, event.<rid>.<name>, system.reset, system.tokenReset, conn.<cid>.token); payload has the documented shape for its kind (response with exactly one of result/resource/error, error with string code and message, meta only for HTTP requests, pre-response timeout:\"<ms>\", per-event fields).",
